@@ -103,9 +103,25 @@ def runLine (j : Json) : String := Id.run do
   let succ := (w.ths.filter (·.won)).length
   return s!"succ={succ} out={String.intercalate "," outs} store=[{String.intercalate "," (visibleKeys cfg w)}] trace={String.intercalate " | " tr.toList}"
 
+/-- nonce memory vs. acceptance window: presentation created at `skew`, expires at `skew + validity` (origin 0),
+    presented at `first` and `replay`; the nonce store is the Redis back-end (forgotten once ttl has passed) -/
+def windowLine (j : Json) : String :=
+  let validity := jNat j "validity"
+  let skew := jNat j "skew"
+  let first := jNat j "first"
+  let replay := jNat j "replay"
+  let created := skew
+  let expires := skew + validity
+  let accept (t : Nat) : Bool := decide (created ≤ t + skew) && decide (t ≤ expires + skew)
+  let maxv := if validity ≤ Nuts.Facts.C05.s2sMaxPresentationValidity then "ok" else "refused"
+  let ttl := (today false false).ttl (.mark .s2s)
+  let n2 := if first + ttl ≤ replay then "ok" else "used"
+  s!"window maxvalidity={maxv} accept1={accept first} accept2={accept replay} nonce1=ok nonce2={n2}"
+
 def step (u : Unit) (j : Json) : Unit × List String :=
   match jStr j "op" with
   | "run" => (u, [runLine j])
+  | "window" => (u, [windowLine j])
   | "note" => (u, ["note " ++ jStr j "text"])
   | o => (u, ["bad-op:" ++ o])
 
